@@ -511,3 +511,87 @@ Theorem C13_node_location_storage_is_source :
   X.Bridge.BrAstBase.stores_and_returns "loc" "Location" "SetLocation".
 Proof. exact (conj (proj1 X.Bridge.BrAstBase.gen_base_is_model) (conj (proj2 X.Bridge.BrAstBase.gen_base_is_model) X.Bridge.BrAstBase.location_read_after_write)). Qed.
 Print Assumptions C13_node_location_storage_is_source.
+
+(* ------------------------------------------------------------------------------------------
+   Front to back (Bridge/BrCapstoneFront.v): ONE statement over the four regenerated stages - lexer (gen/GenLexer.v),
+   parser (gen/GenParser.v), checker (gen/GenChecker.v), file.Source / Error (gen/GenSource.v).  For EVERY text that
+   spells a printable tree (any tree, any redundant parentheses, any white-space layout): the regenerated lexer and
+   parser accept it and return the tree it spells; if the regenerated checker's first fault is at l, the checker rejects
+   with location l; l - the location of the faulty node - is the position the regenerated lexer gave to that node's anchor
+   token; it lies inside the text, and the regenerated NewSource / Bind / Error() show exactly that line.
+   Carve-outs as explicit hypotheses: cc_expect c = None (finding C13-expect-kind-hides-position), l <> noloc (finding
+   C13-conditional-no-location: a fault reported at a conditional node has the empty location). *)
+Require X.Bridge.BrCapstoneFront.
+Import ListNotations.
+Local Open Scope Z_scope.
+Local Open Scope list_scope.
+
+Theorem C13_source_front_to_back : forall (F : nat) (ul ud us : Z -> bool) (o : X.Parse.Parser.oracles)
+    (fmt_int : Z -> string) (fmt_float : PrimFloat.float -> string) (cp : X.Parse.Printer.poracle) (t : expr)
+    (L : X.Parse.Render.layout) (c : X.Ty.Checker.cconfig) (msg : list Z),
+  let toks := X.Parse.Printer.print_any X.Corr.CorrC11.gen_grammar fmt_int fmt_float cp t in
+  let txt := X.Parse.Render.render ul ud us L toks in
+  X.Parse.Printer.printable X.Corr.CorrC11.gen_grammar fmt_int fmt_float o cp t ->
+  X.Parse.Render.tree_textable ul ud us fmt_int fmt_float t = true ->
+  X.Parse.TextProofs.white L toks = true -> X.Parse.Render.distinct_locs toks = true ->
+  X.File.Source.len txt < 2147483647 -> (List.length txt < F)%nat -> txt <> [] ->
+  exists t',
+    (* the regenerated lexer and parser accept the text, with the tree it spells *)
+    X.Bridge.BrCapstoneC11.source_parse_text ul ud us X.Corr.CorrC11.gen_grammar o txt = Some (X.Parse.Parser.ROk t') /\
+    X.Parse.Render.erase_loc t' = X.Parse.Render.erase_loc t /\
+    (* if the regenerated checker's first fault is at l ... *)
+    forall l, X.Bridge.BrChecker.checker_bridge_ok c t' = true -> X.Ty.Checker.cc_expect c = None ->
+      X.Ty.SoundProofs.first_fault c [] t' l ->
+      (* ... the regenerated checker rejects the tree and reports l *)
+      (exists ty e'' k, X.Ty.CheckRules.gen_check c X.gen.GenChecker.checker_src t' = Some (ty, e'', Some (l, k))) /\
+      (* ... l, being the location of the node at `path`, is the position the regenerated lexer gave to the anchor token
+         of that node (the token of the spelling labelled with the node's label) *)
+      forall path x x', X.Parse.Printer.node_at t path = Some x -> Ast.loc_of x <> noloc ->
+        X.Parse.Printer.node_at t' path = Some x' -> Ast.loc_of x' = l ->
+        l = X.Parse.Render.loc_at toks (X.Bridge.BrCapstoneC11.source_text_positions ul ud us txt) (Ast.loc_of x) /\
+        (l <> noloc ->
+           X.File.SourceProofs.inside txt l /\
+           (* ... and the regenerated NewSource / Bind / Error() render exactly that line of the text *)
+           exists rest, X.Bridge.BrCapstoneC13.source_error_text F txt l msg =
+             X.File.SourceRules.ROk [X.File.SourceRules.VStr
+               (msg ++ X.File.Source.format_suffix l
+                         (X.File.Source.line_prefix ++ X.File.Source.untab (X.File.SourceProofs.line_of txt (fst l)) ++ rest))]).
+Proof. exact X.Bridge.BrCapstoneFront.src_front_to_back. Qed.
+Print Assumptions C13_source_front_to_back.
+
+(* non-vacuity: the text "I + S * 2 " in the environment of C03 (I int, S string) meets every hypothesis; the fault is
+   the inner node, reported at (1, 6) = the position of `*`; 32 runes of rendered error *)
+Example C13_source_front_to_back_nonvacuous :
+  X.Parse.Printer.printable X.Corr.CorrC11.gen_grammar X.Parse.Printer.dec X.Bridge.BrCapstoneFront.FWit.ff X.Bridge.BrCapstoneFront.FWit.o0 X.Parse.Printer.no_extra X.Bridge.BrCapstoneFront.FWit.tree /\
+  X.Parse.Render.tree_textable X.Bridge.BrCapstoneFront.FWit.nf X.Bridge.BrCapstoneFront.FWit.nf X.Bridge.BrCapstoneFront.FWit.nf X.Parse.Printer.dec X.Bridge.BrCapstoneFront.FWit.ff X.Bridge.BrCapstoneFront.FWit.tree = true /\
+  X.Parse.TextProofs.white X.Bridge.BrCapstoneFront.FWit.layout1 X.Bridge.BrCapstoneFront.FWit.toks = true /\ X.Parse.Render.distinct_locs X.Bridge.BrCapstoneFront.FWit.toks = true /\
+  X.Bridge.BrCapstoneFront.FWit.txt = [73; 32; 43; 32; 83; 32; 42; 32; 50; 32] /\
+  X.Bridge.BrCapstoneC11.source_parse_text X.Bridge.BrCapstoneFront.FWit.nf X.Bridge.BrCapstoneFront.FWit.nf X.Bridge.BrCapstoneFront.FWit.nf X.Corr.CorrC11.gen_grammar X.Bridge.BrCapstoneFront.FWit.o0 X.Bridge.BrCapstoneFront.FWit.txt
+    = Some (X.Parse.Parser.ROk X.Bridge.BrCapstoneFront.FWit.tree) /\
+  X.Bridge.BrChecker.checker_bridge_ok X.Ty.SoundProofs.SWit.c X.Bridge.BrCapstoneFront.FWit.tree = true /\
+  X.Ty.Checker.cc_expect X.Ty.SoundProofs.SWit.c = None /\
+  X.Ty.SoundProofs.first_fault X.Ty.SoundProofs.SWit.c [] X.Bridge.BrCapstoneFront.FWit.tree (1, 6) /\
+  X.Parse.Printer.node_at X.Bridge.BrCapstoneFront.FWit.tree [1%nat] = Some X.Ty.SoundProofs.LWit.inner /\
+  X.Parse.Render.loc_at X.Bridge.BrCapstoneFront.FWit.toks (X.Bridge.BrCapstoneC11.source_text_positions X.Bridge.BrCapstoneFront.FWit.nf X.Bridge.BrCapstoneFront.FWit.nf X.Bridge.BrCapstoneFront.FWit.nf X.Bridge.BrCapstoneFront.FWit.txt) (1, 6) = (1, 6) /\
+  exists shown, X.Bridge.BrCapstoneC13.source_error_text 40 X.Bridge.BrCapstoneFront.FWit.txt (1, 6) [33] = X.File.SourceRules.ROk [X.File.SourceRules.VStr shown] /\
+                List.length shown = 32%nat.
+Proof. exact X.Bridge.BrCapstoneFront.src_front_to_back_hypotheses_inhabited. Qed.
+
+(* the location of the checker's first fault is no free-floating pair: it is the location of a NODE of the checked tree
+   (the faulty node, or the operand / argument / slice bound the violated rule names), reached by a path of child
+   indices - or the empty location.  With C13_source_front_to_back (instantiate `path`, `x'` with this node): the
+   reported position is the lexer position of that node's anchor token and its line is the one rendered. *)
+Theorem C13_first_fault_at_node : forall c cols e l, X.Ty.SoundProofs.first_fault c cols e l ->
+  l = noloc \/ exists path x, X.Parse.Printer.node_at e path = Some x /\ Ast.loc_of x = l.
+Proof. exact X.Bridge.BrCapstoneFront.first_fault_at_node. Qed.
+Print Assumptions C13_first_fault_at_node.
+
+Example C13_first_fault_at_node_nonvacuous :
+  X.Ty.SoundProofs.first_fault X.Ty.SoundProofs.SWit.c [] X.Ty.SoundProofs.LWit.e_closure (1, 11) /\
+  exists path x, X.Parse.Printer.node_at X.Ty.SoundProofs.LWit.e_closure path = Some x /\ Ast.loc_of x = (1, 11) /\ path <> [].
+Proof.
+  split; [exact X.Ty.SoundProofs.LWit.e_closure_fault|].
+  destruct (X.Bridge.BrCapstoneFront.first_fault_at_node _ _ _ _ X.Ty.SoundProofs.LWit.e_closure_fault) as [H|(path & x & H1 & H2)];
+    [discriminate H|].
+  exists path, x. split; [exact H1|]. split; [exact H2|]. intros ->. cbn in H1. injection H1 as <-. vm_compute in H2. discriminate H2.
+Qed.
